@@ -310,6 +310,8 @@ def run_check(modname, tier="quick", seed=0, update_ledger=False, only_case=None
     if cov["paths"] is None:
         del cov["paths"]
     if bounded is not None:
+        if not cov["samples"]:
+            cov["samples"] = list(bounded.get("samples", []))
         cov["bounded"] = bounded
         cov["evaluations"] = int(bounded.get("evaluations", 0))
         cov["distinct_nontrivial"] = int(bounded.get("distinct_nontrivial", 0))
